@@ -52,7 +52,20 @@ def one(job):
     try:
         cap, kl = os.path.join(d, "in.pcapng"), os.path.join(d, "k.log")
         open(cap, "wb").write(mx.capture())
-        open(kl, "w").write(mx.keylog_text())
+        # a key log as endpoints really write them when a client random is logged twice (resumption, restarted capture):
+        # stale lines with the same label and client random but another value. Which line wins is fixed by the code
+        # (TLS <= 1.2: the first CLIENT_RANDOM/RSA line; TLS 1.3 and QUIC: the last line per label), so stale lines are put
+        # where they lose - the export stays non-trivial and must not depend on anything but the file.
+        lines = []
+        for l in mx.keylog:
+            lab, cr, val = l.split(" ")
+            stale = f"{lab} {cr} {rng.randbytes(len(val) // 2).hex()}"
+            if rng.random() < 0.5:
+                lines += [l, stale] if lab in ("CLIENT_RANDOM", "RSA") else [stale, l]
+            else:
+                lines.append(l)
+        keylog_text = "\n".join(lines) + "\n"
+        open(kl, "w").write(keylog_text)
         cap2, kl2 = os.path.join(d, "in2.pcapng"), os.path.join(d, "k2.log")
         open(cap2, "wb").write(other.capture())
         open(kl2, "w").write(other.keylog_text())
@@ -87,7 +100,8 @@ def one(job):
         # in-process repetition: A, A  and  B, A
         o1, o2, o3, o4 = (os.path.join(d, f"rep{i}.pcapng") for i in range(4))
         a = lambda o: ["-i", cap, "-s", kl, "-o", o] + list(args)
-        b = lambda o: ["-i", cap2, "-s", kl2, "-o", o] + list(args)
+        # the earlier run uses OTHER options as well (its port map, extra server ports, -a must not leak into the next run)
+        b = lambda o: ["-i", cap2, "-s", kl2, "-o", o, "-m", "443:9000", "8443:9001", "-p", "8443", "4433", "-a"]
         o5, o6 = os.path.join(d, "rep5.pcapng"), os.path.join(d, "rep6.pcapng")
         bad_out = b(os.path.join(d, "no-such-dir", "x.pcapng"))                    # run B dies when opening its output file
         bad_keys = ["-i", cap2, "-s", os.path.join(d, "missing.log"), "-o", o6, "-p", "5555"]   # run dies on a missing key log
@@ -107,7 +121,7 @@ def one(job):
         nonempty = ref[1] is not None and len(wire.read_pcapng_strict(open(os.path.join(d, "out_hs0.pcapng"), "rb").read())) > 0
     finally:
         import shutil
-        blob = {"capture_hex": mx.capture().hex(), "keylog": mx.keylog_text(), "argv": list(args), "job": [seed, ntls, nquic, list(args), list(job[4])]}
+        blob = {"capture_hex": mx.capture().hex(), "keylog": keylog_text if "keylog_text" in dir() else mx.keylog_text(), "argv": list(args), "job": [seed, ntls, nquic, list(args), list(job[4])]}
         shutil.rmtree(d, ignore_errors=True)
     return fails[:4], mx.describe(), blob, nonempty
 
@@ -119,7 +133,7 @@ def explore(ctx, scale=1):
     for i in range(n):
         nt, nq = [(1, 1), (0, 2), (2, 0), (1, 2)][i % 4]
         seeds = tuple(range(1, 8)) if (ctx.thorough() or i == 0) else tuple(rng.sample(range(1, 1000), 2))
-        jobs.append((rng.getrandbits(48), nt, nq, [(), ("-a",), ("-m",)][i % 3], seeds))
+        jobs.append((rng.getrandbits(48), nt, nq, [(), ("-a",), ("-m",), ("-m", "8443:8444")][i % 4], seeds))
     results = tool.pmap(one, jobs, procs=16 if ctx.thorough() else 6)
     o = ctx.oracle.setdefault("repeated-runs", {"runs": 0, "violations": 0})
     for job, (fails, desc, blob, nonempty) in zip(jobs, results):
